@@ -46,6 +46,9 @@ type Beh struct {
 	Txs  []TxCls  `json:"txs"`
 	Tx   *TxCls   `json:"tx"`
 	Muts []string `json:"muts"`
+	Ver  int      `json:"ver"` // "apply": protocol version of the chain (default 5)
+	Net  uint64   `json:"net"` // "vsweep": network id of the signer
+	Vs   []int64  `json:"vs"`  // "vsweep": the V values to present
 	Mut  string   `json:"mut"` // "sigseq": the mutation that made the object
 	Seq  []string `json:"seq"` // "sigseq": the signers asked, in order
 }
@@ -74,11 +77,12 @@ var (
 
 type world struct {
 	*chainfx.World
+	ver   int            // protocol version of the chain
 	accts []*fixture.Key // 1-based senders
 	track []common.Address
 }
 
-func newWorld() (*world, error) {
+func newWorld(ver int) (*world, error) {
 	accts := fixture.Keys("acct", 2)
 	alloc := core.GenesisAlloc{
 		accts[1].Addr: {Balance: big.NewInt(richBal), Nonce: nonce0},
@@ -88,11 +92,11 @@ func newWorld() (*world, error) {
 		addrRevert:    {Balance: big.NewInt(0), Code: codeRevert},
 		addrBurn:      {Balance: big.NewInt(0), Code: codeBurn},
 	}
-	cw, err := chainfx.NewWorld(chainfx.Opts{Alloc: alloc, Operators: map[int]common.Address{1: accts[1].Addr}})
+	cw, err := chainfx.NewWorld(chainfx.Opts{Alloc: alloc, Operators: map[int]common.Address{1: accts[1].Addr}, Version: params.YouVersion(ver)})
 	if err != nil {
 		return nil, err
 	}
-	w := &world{World: cw, accts: accts}
+	w := &world{World: cw, accts: accts, ver: ver}
 	// base chain, built with real transactions: validator v2 starts accepting delegations (takes effect at the end of the
 	// first staking period)
 	upd := &staking.TxUpdateValidator{MainAddress: w.Vals[2].Addr, AcceptDelegation: params.AcceptDelegation, CommissionRate: 0xffff, RiskObligation: 0xffff}
@@ -114,7 +118,10 @@ func newWorld() (*world, error) {
 		return nil, err
 	}
 	if v := st.GetValidatorByMainAddr(w.Vals[2].Addr); v == nil || v.AcceptDelegation != params.AcceptDelegation {
-		return nil, fmt.Errorf("fixture: validator v2 does not accept delegations after the first period")
+		return nil, fmt.Errorf("fixture: validator v2 does not accept delegations after the first period (version %d)", ver)
+	}
+	if hv := w.A.BC.CurrentBlock().Header().CurrVersion; int(hv) != ver {
+		return nil, fmt.Errorf("fixture: chain is at protocol version %d, want %d", hv, ver)
 	}
 	w.track = []common.Address{accts[1].Addr, accts[2].Addr, addrRcpt, addrStore, addrRevert, addrBurn, params.StakingModuleAddress, w.Vals[4].Addr}
 	return w, nil
@@ -265,14 +272,16 @@ func (w *world) conc(c *TxCls, st *state.StateDB, pool uint64) (*concrete, error
 	return t, nil
 }
 
-func (w *world) sign(t *concrete) (*types.Transaction, error) {
+func (w *world) sign(t *concrete) (*types.Transaction, error) { return w.signWith(t, w.Signer) }
+
+func (w *world) signWith(t *concrete, signer types.Signer) (*types.Transaction, error) {
 	var tx *types.Transaction
 	if t.to == nil {
 		tx = types.NewContractCreation(t.Nonce, big.NewInt(t.Value), t.Limit, big.NewInt(t.Price), t.data)
 	} else {
 		tx = types.NewTransaction(t.Nonce, *t.to, big.NewInt(t.Value), t.Limit, big.NewInt(t.Price), t.data)
 	}
-	return types.SignTx(tx, w.Signer, w.accts[t.S].Priv)
+	return types.SignTx(tx, signer, w.accts[t.S].Priv)
 }
 
 func errClass(err error) string {
@@ -304,7 +313,8 @@ func (w *world) apply(env *drive.Env, b *Beh) error {
 	p.GP = new(core.GasPool).AddGas(b.Pool)
 	usedGas, gasRewards := new(uint64), new(big.Int) // process mode: the locals of StateProcessor.Process
 	blockHash := common.Hash{0xb1}
-	env.Emit(map[string]interface{}{"ev": "Init", "mode": b.Mode, "pool": b.Pool, "st": w.snap(p.State)})
+	vtag := fmt.Sprint("v", w.ver)
+	env.Emit(map[string]interface{}{"ev": "Init", "mode": b.Mode, "pool": b.Pool, "st": w.snap(p.State), "ver": w.ver})
 	lastApplied := map[int]*types.Transaction{}
 	for i := range b.Txs {
 		c := &b.Txs[i]
@@ -334,7 +344,7 @@ func (w *world) apply(env *drive.Env, b *Beh) error {
 				t.To = "staking"
 			}
 		}
-		ev := map[string]interface{}{"ev": "Apply", "i": i, "mode": b.Mode, "cls": c, "tx": t}
+		ev := map[string]interface{}{"ev": "Apply", "i": i, "mode": b.Mode, "cls": c, "tx": t, "ver": w.ver, "vtag": vtag}
 		pre := w.snap(p.State)
 		poolPre := p.GP.Gas()
 		var guPre, guPost uint64
@@ -589,6 +599,54 @@ func (w *world) sig(env *drive.Env, b *Beh) error {
 	return nil
 }
 
+// vsweep signs the case for network id b.Net and presents it with every V of b.Vs (R, S and all fields unchanged) to the
+// signer of that network: only the V the signature was made with may yield the key holder.
+func (w *world) vsweep(env *drive.Env, b *Beh) error {
+	p, err := w.Begin(w.A, w.Vals[4].Addr)
+	if err != nil {
+		return err
+	}
+	t, err := w.conc(b.Tx, p.State, 300000)
+	if err != nil {
+		return err
+	}
+	signer := types.NewYouSigner(b.Net)
+	tx, err := w.signWith(t, signer)
+	if err != nil {
+		return err
+	}
+	holder := w.accts[t.S].Addr
+	base, _, err := w.mutate(tx, t, "none")
+	if err != nil {
+		return err
+	}
+	orig := base.V.Int64()
+	for _, v := range b.Vs {
+		raw := base
+		raw.V = big.NewInt(v)
+		ev := map[string]interface{}{"ev": "SenderV", "net": b.Net, "v": v, "orig": orig}
+		func() {
+			defer func() {
+				if r := recover(); r != nil {
+					ev["panic"] = fmt.Sprint(r)
+				}
+			}()
+			mt, derr := decode(&raw)
+			if mt == nil {
+				ev["res"], ev["errmsg"] = "err", derr
+				return
+			}
+			res, msg := resolve(signer, mt, holder)
+			ev["res"] = res
+			if msg != "" {
+				ev["errmsg"] = msg
+			}
+		}()
+		env.Emit(ev)
+	}
+	return nil
+}
+
 // sigseq resolves ONE decoded transaction object under a sequence of signers ("home": this network's signer, "foreign": a
 // signer for another network id).  The object caches the sender it was resolved to (types.Sender); each event also
 // records what a freshly decoded object answers to the same signer.
@@ -637,15 +695,33 @@ func (w *world) sigseq(env *drive.Env, b *Beh) error {
 }
 
 func run(env *drive.Env) error {
-	w, err := newWorld()
-	if err != nil {
-		return err
+	worlds := map[int]*world{}
+	world := func(ver int) (*world, error) {
+		if ver == 0 {
+			ver = 5
+		}
+		if w, ok := worlds[ver]; ok {
+			return w, nil
+		}
+		w, err := newWorld(ver)
+		if err == nil {
+			worlds[ver] = w
+		}
+		return w, err
 	}
 	var b Beh
 	for env.Next(&b) {
+		w, err := world(b.Ver)
+		if err != nil {
+			return err
+		}
 		switch b.Kind {
 		case "apply":
 			if err := w.apply(env, &b); err != nil {
+				return err
+			}
+		case "vsweep":
+			if err := w.vsweep(env, &b); err != nil {
 				return err
 			}
 		case "sig":
